@@ -87,7 +87,8 @@ struct C07 : Scenario {
 			for (auto &m : p.members) {
 				if (m.kind != 'f' || !rng.chance(2, 3)) continue;
 				Bytes plain = member_plain(m);
-				if (rng.chance(1, 2)) m.crc = (crc16_bitwise(plain) ^ (1 + rng.below(65535))) & 0xffff;
+				if (rng.chance(1, 6)) m.crc = crc16_bitwise(plain) == 0 ? 1 : 0;   // a recorded CRC of exactly zero is a CRC like any other
+				else if (rng.chance(1, 2)) m.crc = (crc16_bitwise(plain) ^ (1 + rng.below(65535))) & 0xffff;
 				else {
 					int64_t n = (int64_t) plain.size();
 					static const int64_t d[] = {1, -1, 2, 100, -5, 65536};
